@@ -67,4 +67,10 @@ var registry = []propCfg{
 		Parts: []partCfg{{Test: "TestC09", Quick: 15000, Thorough: 200000}},
 		Assum: []string{"requested and configured methods are upper case (the statement does not say how case is treated)", "route tables in the fragment both matching engines support, as for C17"},
 	},
+	{
+		ID: "C15", Level: "exploration",
+		Rule:  "rapid draws a call sequence on the Response that respects the precondition (status set at most once, before any body byte): optionally one of WriteHeader, WriteEntity, WriteHeaderAndEntity, WriteAsJson, WriteAsXml, WriteJson, WriteHeaderAndJson, WriteHeaderAndXml, WriteError, WriteErrorString, WriteServiceError (nil values, payload sizes 0..5000, both pretty-print settings, Produces/Accept combinations including ones with no registered writer), then 0-8 raw Writes of 0..70000 bytes. The sequence runs in a route function dispatched through a container onto a counting http.ResponseWriter that starts failing at a drawn per-mille position of the total output (partial acceptance), or under gzip/deflate with a non-failing writer. A trailing container filter reads StatusCode()/ContentLength() after the chain returned: they must equal the status the underlying writer received (200 if none) and the accepted byte count (decoded length under a coding); without coding every call during which the underlying writer failed must return that very error and Write's n must equal what was accepted. Non-trivial: the failure position lies strictly inside the output, a coding sits underneath, or a multi-write entity (pretty XML) is written. Distinct: FNV-64 of the case JSON.",
+		Parts: []partCfg{{Test: "TestC15", Quick: 20000, Thorough: 150000}},
+		Assum: []string{"with a coding underneath only a non-failing writer is used: the statement restricts the failure clause to the uncoded case", "an error that is not a write failure (e.g. a value the codec cannot marshal) is outside the statement"},
+	},
 }
